@@ -111,6 +111,9 @@ def leanchecker(mods, timeout=1800):
 
 def model_run(lines, timeout=3600):
     """pipe operation lines through the compiled model driver; returns list of output lines"""
+    lines = list(lines)
+    if not lines:
+        return []
     if not os.path.exists(MODEL_EXE):
         raise Infra('model driver missing: run setup_cmd (lake build) first')
     r = subprocess.run([MODEL_EXE], input='\n'.join(lines) + '\n', capture_output=True, text=True, timeout=timeout)
